@@ -24,9 +24,10 @@ import (
 )
 
 // order-preserving rank tables (6 ranks per type), restricted to the literal forms the SQL front end
-// accepts: non-negative integers, plain decimals, quoted strings.
+// accepts: integers and plain decimals with an optional sign, quoted strings (NULL literals and IS NULL are not
+// accepted by the front end).
 // (rank 4 is the largest integer whose B-tree key does not start with ff ff, see KF-C17-btree-ffff-stopper)
-var intVals = []int32{0, 1, 7, 65536, 2147418111, 2147483647}
+var intVals = []int32{-65536, 0, 1, 7, 2147418111, 2147483647}
 
 // ffRanks: ranks of the integer domain whose order-preserving index key starts with the bytes ff ff
 func ffRanks() []int {
@@ -40,9 +41,9 @@ func ffRanks() []int {
 	}
 	return out
 }
-var floatVals = []float32{0.0, 0.5, 1.5, 2.25, 1024.125, 100000000.0}
+var floatVals = []float32{-2.25, 0.0, 0.5, 1.5, 1024.125, 100000000.0}
 var strVals = []string{"", "a", "a b", "ab", "b", strings.Repeat("zy", 150)}
-var floatLits = []string{"0.0", "0.5", "1.5", "2.25", "1024.125", "100000000.0"}
+var floatLits = []string{"-2.25", "0.0", "0.5", "1.5", "1024.125", "100000000.0"}
 
 const NRanks = 6
 
